@@ -12,7 +12,11 @@ Methods == {"monitor", "monitor_cond", "monitor_cond_since"}
 MethodSeqs == UNION {[1..n -> Methods] : n \in 1..3}
 Cuts == [kind : {"cut"}, dir : {"c2s", "s2c"}, at : 1..4, inside : BOOLEAN, phase : {"steady", "reconnect"}, away : {0, 2, 3}]
 Holes == [kind : {"blackhole"}, dir : {""}, at : {0}, inside : {FALSE}, phase : {"steady"}, away : {0, 3}]
-SingleFaultCases == {[methods |-> ms, faults |-> <<f>>, seed |-> 1] : ms \in MethodSeqs, f \in Cuts \cup Holes}
+\* a cut, then the reply of a restarted monitor held at the pause point while a transaction commits: the
+\* interleaving ReadLoop (deferring the notification) before ApplyReply of Reconn.tla, forced on the real client
+Gated == [kind : {"gated"}, dir : {""}, at : {0}, inside : {FALSE}, phase : {"reconnect"}, away : {0}]
+SingleFaultCases == {[methods |-> ms, faults |-> <<f>>, seed |-> 1] : ms \in MethodSeqs, f \in Cuts \cup Holes \cup Gated}
+                    \cup {[methods |-> ms, faults |-> <<g, g>>, seed |-> 3] : ms \in MethodSeqs, g \in Gated}
 \* two faults in a row: a sample of the product (first fault x second fault), every method sequence of length 2
 DoubleFaultCases == {[methods |-> ms, faults |-> <<f, g>>, seed |-> 2]
                        : ms \in [1..2 -> Methods],
